@@ -3,6 +3,7 @@ package main
 import (
 	"fmt"
 	"go/token"
+	"go/types"
 
 	"golang.org/x/tools/go/ssa"
 )
@@ -428,6 +429,29 @@ func r165(c *Ctx) {
 			} else {
 				srcs = []src{{w.val, w.instr.Block()}}
 			}
+			// a flag read from a local copy of a whole options struct (`inherited := defaultServiceOptions; if root != nil
+			// { inherited = root.options }`) comes from each struct that was copied in
+			var expanded []src
+			for _, sv := range srcs {
+				ch, base := fieldPath(sv.v)
+				a, isLocal := base.(*ssa.Alloc)
+				if !isLocal || len(ch) != 1 || ch[0] != f {
+					expanded = append(expanded, sv)
+					continue
+				}
+				n := 0
+				for _, r := range *a.Referrers() {
+					if st, ok := r.(*ssa.Store); ok && st.Addr == ssa.Value(a) {
+						n++
+						// the same field of the struct copied in
+						expanded = append(expanded, src{&ssa.Field{X: st.Val, Field: fieldIndex(st.Val.Type(), f)}, st.Block()})
+					}
+				}
+				if n == 0 {
+					expanded = append(expanded, sv)
+				}
+			}
+			srcs = expanded
 			srcOK := len(srcs) > 0
 			for _, sv := range srcs {
 				one := false
@@ -438,7 +462,7 @@ func r165(c *Ctx) {
 							one = true
 						}
 					}
-					if base == ssa.Value(defOpts) {
+					if base == ssa.Value(defOpts) || isLoadOfGlobal(base, defOpts) {
 						one = true
 					}
 				}
@@ -496,4 +520,17 @@ func r165(c *Ctx) {
 		okHost = ok
 	}
 	c.ob(rule, "sync/looks-up-root-service-of-first-host", sync.Pos(), okHost, true, "")
+}
+
+func fieldIndex(t types.Type, f *types.Var) int {
+	st, _ := t.Underlying().(*types.Struct)
+	if st == nil {
+		return 0
+	}
+	for i := 0; i < st.NumFields(); i++ {
+		if st.Field(i) == f {
+			return i
+		}
+	}
+	return 0
 }
